@@ -36,7 +36,7 @@ LATTICE_CONSTS = """  Modes = {"WebRtc", "Srtp", "Rtp"}
   Compats = {"Standard", "LegacySip"}
   Offerers = {"A", "B"}
   Scheds = {"plain", "slowSetRemote"}
-  Renegs = {"none", "offerer", "answerer"}
+  Renegs = {"none", "offerer", "answerer", "moved"}
 """
 
 
@@ -90,6 +90,12 @@ def select_quick(lattice, seed):
                 # (Srtp with a LegacySip offerer and two media is the open finding KF-C10-2: not multiplied here)
                 if b["mode"] == "Rtp" or norm(c)["compat" + c["offerer"]] == "Standard":
                     chosen[key(c)] = c
+        # a moved peer (fresh endpoint, new ports) x latching on either side x the per-side SDP modes: a latched remote
+        # address has to follow the later description
+        b = bases[1]
+        if c["reneg"] == "moved" and all(norm(c)[f] == b[f] for f in FACTORS
+                                         if f not in ("compatA", "compatB", "offerer", "reneg", "latchingA", "latchingB")):
+            chosen[key(c)] = c
     for f in FACTORS:
         vals = {}
         for c in lattice:
@@ -353,7 +359,8 @@ def selftest():
     ok = True
     for dev, inv in {"SdesBeforeLocalAnswer": "NeverFailed", "EqualRoles": "RolesComplementary",
                      "SctpNeedsStoredRemote": "ConnectsAndDelivers",
-                     "RenegRestartsTransport": "StaysConnected"}.items():
+                     "RenegRestartsTransport": "StaysConnected",
+                     "StaleRemoteAfterMove": "ConnectsAndDelivers"}.items():
         cfg = os.path.join(vlib.SPEC, f"MC_LifecyclePair_self_{dev}_{os.getpid()}.gen.cfg")
         mc_cfg(cfg, devs=[dev], liveness=(inv == "ConnectsAndDelivers"))
         res = vlib.tlc("MC_LifecyclePair", os.path.basename(cfg), workers=4, timeout=600, tag=f"selfpair_{dev}")
